@@ -644,7 +644,12 @@ def run_spec(spec: dict, seed: int, workdir: str, timeout: float = 60.0, shuffle
                 name: {"terminated": bool(st.terminated),
                        "checklist": {k: sorted(v) for k, v in st.iteration_termination_checklist.items()},
                        "inputs": {pn: {"terminations": [Status(t.value).name for t in port.token_list if isinstance(t, TerminationToken)],
-                                       "ndata": sum(1 for t in port.token_list if not isinstance(t, (TerminationToken, IterationTerminationToken)))}
+                                       "ndata": sum(1 for t in port.token_list if not isinstance(t, (TerminationToken, IterationTerminationToken))),
+                                       "unread": (port.queues[posixpath.join(name, pn)].qsize()
+                                                  if posixpath.join(name, pn) in port.queues else len(port.token_list)),
+                                       "stream": [("T1" if t.value == Status.COMPLETED else "T0") if isinstance(t, TerminationToken)
+                                                  else ("i" + t.tag if isinstance(t, IterationTerminationToken) else "d" + t.tag)
+                                                  for t in port.token_list]}
                                   for pn, port in st.get_input_ports().items()}}
                 for name, st in workflow.steps.items() if isinstance(st, LoopCombinatorStep)}
 
